@@ -259,7 +259,7 @@ func (g *TypedGen) pickVar(ty string) *lib.Node {
 }
 
 func (g *TypedGen) numLit() *lib.Node {
-	return &lib.Node{K: "num", S: g.R.Pick([]string{"0", "1", "2", "3", "10", "2.5", "0.125", "7", "100", "1e2"})}
+	return &lib.Node{K: "num", S: g.R.Pick([]string{"0", "1", "2", "3", "10", "2.5", "0.125", "7", "100", "1e2", "010", "0755", "007", "00", "1.50", "01e1", "0.5e1"})}
 }
 
 func (g *TypedGen) strLit() *lib.Node {
